@@ -1,7 +1,7 @@
 """Scenario specs (plain JSON data) -> capture file + key log + ground truth.
 
 A scenario is a dict
-    {"conns": [conn spec, ...], "order": [ints] | None, "tseed": int, "t0": int (us), "times": None | "zero" | "zero_all" | "disorder", "container": {...}, "keys": {...}, "opts": {...}}
+    {"conns": [conn spec, ...], "order": [ints] | None, "tseed": int, "t0": int (us), "times": None | "zero" | "zero_all" | "disorder" | "long_gaps", "container": {...}, "keys": {...}, "opts": {...}}
 conn spec kinds: "tls" (tlsref.TlsConn + "ep" + "tcp"), "quic" (quicref.QuicConn + "ep"), "noise".
 Everything random is derived from integers that are part of the spec, so a spec replays exactly.
 """
@@ -454,6 +454,8 @@ def assign_times(pkts, tseed=0, t0=T0, times=None):
         p.ts = t
         if times != "zero_all":
             t += rnd.randrange(2, 4000) if tseed else 1000
+            if times == "long_gaps" and rnd.randrange(5) == 0:
+                t += rnd.choice([3_600_000_000, 7_300_000_000, 90_000_000_000, 700_000_000_000])      # idle for 1 h .. 8 days
     if times == "disorder" and len(pkts) > 2:
         r2 = random.Random(tseed * 7919 + 13)
         used = {p.ts for p in pkts}
@@ -611,7 +613,8 @@ def write_capture(b, workdir, pkts=None, container=None, keys=None, name="in"):
         pre_idb = [other_block(bt, bl) for bt, bl in c.get("extra_pre") or []] + pre_idb
         path = os.path.join(workdir, name + ".pcapng")
         netio.write_pcapng(path, items, endian=c["endian"], tsresol=c["tsresol"], tsoffset=c["tsoffset"], offset_first=bool(c.get("offset_first")),
-                           snaplen=c.get("snaplen", 0), pre_idb=pre_idb, ifaces=c.get("ifaces", 1), late_idb=bool(c.get("late_idb")), idle_first=c.get("idle_first"))
+                           snaplen=c.get("snaplen", 0), pre_idb=pre_idb, ifaces=c.get("ifaces", 1), late_idb=bool(c.get("late_idb")), idle_first=c.get("idle_first"),
+                           section_length=bool(c.get("section_length")))
     else:
         path = os.path.join(workdir, name + ".pcap")
         netio.write_pcap(path, items, endian=c["endian"], nano=c["nano"])
